@@ -34,6 +34,7 @@ def dispatch (line : String) : String :=
   | "gen" :: rest => (handleGen rest).getD "BAD-CASE\t0"
   | "netparse" :: rest => (handleNetParse rest).getD "BAD-CASE\t0"
   | "proc" :: rest => (handleProc rest).getD "BAD-CASE\t0"
+  | "e2efill" :: rest => (handleE2EFill rest).getD "BAD-CASE\t0"
   | "fill" :: rest => (handleFill rest).getD "BAD-CASE\t0"
   | "livechain" :: rest => (handleLiveChain rest).getD "BAD-CASE\t0"
   | "live" :: rest => (handleLive rest).getD "BAD-CASE\t0"
